@@ -204,6 +204,10 @@ def mutants(text, quick=False, rich_add=None, add=True):
 
 RAW_INPUTS = [
     ("empty file", b""),
+    ("one line break", b"\n"),
+    ("blank lines", b"\n\n  \n\n"),
+    ("declaration and a line break", b'<?xml version="1.0"?>\n'),
+    ("valid root then blank lines", b'<?xml version="1.0"?>\n<messageSchema package="p" id="1" version="0"/>\n\n\n'),
     ("NUL bytes", b"\0" * 64),
     ("only BOM", b"\xef\xbb\xbf"),
     ("BOM + junk", b"\xef\xbb\xbf<"),
